@@ -1,5 +1,6 @@
 import Mathlib.Logic.ExistsUnique
 import Tup.Model.IdSpace
+import Tup.Gen.Spaces
 import Tup.Spec.Layout
 import Tup.Lemmas.IdSpace
 import Tup.Lemmas.IdSpaceSplit
@@ -20,6 +21,19 @@ open Tup Tup.IdLemmas
 /-! ### the spaces -/
 
 theorem all_spaces_valid : ∀ s ∈ Space.all, s.valid = true := by decide
+
+/-- Tie of the model to the repository (regenerated `Tup.Gen.Spaces`): `IDSpace.all_values()` yields the model's
+    five spaces in the model's order, and for each of them `str`, `num_nonzero_bits`, `subspace_byte_offset`,
+    `subspace_byte_mask`, and `subspace_size` / `subspace_masked_range` at the probe subspaces return what the
+    model computes; `IDSubspace()` is the full subspace; `from_string` reads every printed name back. -/
+theorem spaces_match_repo :
+    Space.all.map (fun s => (⟨s.colorBits, s.use3rd, s.name, s.numNonzeroBits, s.byteOffset, s.byteMask,
+        Gen.spaceProbes.map (fun p => s.subspaceSize ⟨p.1, p.2⟩),
+        Gen.spaceProbes.map (fun p => s.maskedRange ⟨p.1, p.2⟩)⟩ : Gen.SpaceRow)) = Gen.spaces ∧
+    (Sub.full.b, Sub.full.e) = Gen.defaultSubspace ∧
+    (∀ r ∈ Gen.spaces, Space.ofString r.name = some ⟨r.colorBits, r.use3rd⟩) ∧
+    (∀ p ∈ Gen.spaceProbes, (Sub.mk p.1 p.2).valid = true) := by
+  refine ⟨by decide +kernel, by decide, by decide +kernel, by decide⟩
 
 /-- `IDSpace.all_values()` lists exactly the spaces the constructor accepts. -/
 theorem valid_iff_mem_all (s : Space) : s.valid = true ↔ s ∈ Space.all :=
